@@ -84,7 +84,7 @@ def _check(prop, tier, seed, replay, work, t0):
                 what[fld] = [str(x)[:80] for x in what[fld]][:6]
         violations.append({"replay": path, "what": "%s in %s mode (snapshot=%s restore=%s leftovers=%s) at event %d of scenario %d: %s" % (
             ",".join(names), hdr["mode"], hdr["snapshot"], hdr["restore"], hdr["leftovers"], v["line"] - j, v["trace"], json.dumps(what)[:700])})
-    cov = {"states": states, "transitions": trans, "traces_validated_against_impl": nscen, "exhaustive": False,
+    cov = {"states": states, "transitions": trans, "traces_validated_against_impl": nscen, "samples": vlib.trace_samples(trace), "exhaustive": False,
            "client_units": nunits, "scenarios_with_snapshot_phase": snap, "scenarios_by_mode": modes, "d_layer_runs": druns,
            "trace_events_checked": tr["distinct"],
            "explanation": "closed loops of two fake sites (propagation: MULTI/EXEC wrapping incl. the Redis 7 single-command rule, SET PX/SETEX -> PXAT, "
